@@ -42,16 +42,17 @@ const (
 	cnSwallow             // host swallows *Exception (returns a marker), propagates everything else
 	cnCtorReenter         // AssertConstructor(script constructor calling next); panic(err)
 	cnRunProgram          // nested rt.RunString("next()"); panic(err)
+	cnForOfStep           // rt.ForOf over a SCRIPT iterable handed in by the script shim above; the Go step callback (or the iterable's next()) calls the next frame
 	nChainKinds
 )
 
 var chKindCodes = [...]string{"Jp", "Jr", "Jf", "Jb", "Js", "Jw", "Jg", "Jx", "Jn", "Jj", "Je", "Jk", "Ji", "Ja",
-	"Nf", "Nr", "Nw", "Np", "Nc", "Ne", "Nx", "Ng", "No", "Nt", "Nd", "Ns", "Nk", "Nn"}
+	"Nf", "Nr", "Nw", "Np", "Nc", "Ne", "Nx", "Ng", "No", "Nt", "Nd", "Ns", "Nk", "Nn", "Nq"}
 
 var chKindNames = [...]string{"J-plain", "J-catch-rethrow", "J-finally", "J-catch-rethrow+finally", "J-catch-swallow", "J-catch-wrap",
 	"J-getter", "J-proxy-trap", "J-generator", "J-promise", "J-eval", "J-class-ctor", "J-host-iterator", "J-iterate-builtin",
 	"N-FunctionCall", "N-reflect(error)", "N-reflect-wrapped(%w)", "N-reflect-noerr(panic)", "N-ConstructorCall", "N-ExportTo(error)",
-	"N-ExportTo(panic)", "N-Try+Get", "N-Try+ForOf", "N-ProxyTrapConfig", "N-DynamicObject", "N-swallow", "N-AssertConstructor", "N-RunProgram"}
+	"N-ExportTo(panic)", "N-Try+Get", "N-Try+ForOf", "N-ProxyTrapConfig", "N-DynamicObject", "N-swallow", "N-AssertConstructor", "N-RunProgram", "N-ForOf-step"}
 
 // the draw table: index 0 is the simplest frame; catch/finally and wrapping frames get extra weight
 var chKindTable = [...]int{cjPlain, cjRethrow, cjFinally, cjBoth, cjSwallow, cjWrap, cjGetter, cjProxy, cjGen, cjJob, cjEval, cjClass,
@@ -60,7 +61,8 @@ var chKindTable = [...]int{cjPlain, cjRethrow, cjFinally, cjBoth, cjSwallow, cjW
 	cjRethrow, cjRethrow, cjFinally, cjFinally, cjBoth, cjWrap, cnReflectWrap, cnReflectWrap, cnReflectWrap, cnFunc, cnReflect, cnExportErr,
 	cnReflectNoErr, cnExportPanic, cnDynamic, cnProxyCfg, cnCtor, cjJob,
 	cjHostIter, cjHostIter, cjHostIter, cjHostIter, cjHostIter, cjHostIter,
-	cjIterBuiltin, cjIterBuiltin, cjIterBuiltin, cjIterBuiltin, cjIterBuiltin, cjIterBuiltin, cjIterBuiltin}
+	cjIterBuiltin, cjIterBuiltin, cjIterBuiltin, cjIterBuiltin, cjIterBuiltin, cjIterBuiltin, cjIterBuiltin,
+	cnForOfStep, cnForOfStep, cnForOfStep, cnForOfStep, cnForOfStep, cnForOfStep, cnForOfStep, cnForOfStep}
 
 func chIsNative(k int) bool { return k >= cnFunc }
 
@@ -70,12 +72,48 @@ func chIsNative(k int) bool { return k >= cnFunc }
 // ran during a foreign panic, and a foreign panic from return() was swallowed); repaired, asserted by default.
 var chStrictIterateForeign = os.Getenv("VERIF_C14_ITERATE_FOREIGN") != "0"
 
+// KNOWN DEVIATION (reported): Runtime.ForOf ("a Go equivalent of for-of loop") calls returnIter() unprotected when the step
+// callback has thrown a script exception, so an exception thrown by the iterator's return() SUPERSEDES the one that is being
+// propagated; in a for-of loop (ECMA-262 IteratorClose with a throw completion) the original exception wins. The host /
+// the next catch block then sees return()'s value, not the value that was thrown. By default the model follows goja here;
+// VERIF_C14_FOROF_GO_ORIGINAL_WINS=1 asserts for-of semantics.
+var chForOfOriginalWins = os.Getenv("VERIF_C14_FOROF_GO_ORIGINAL_WINS") == "1"
+
 var chStrictForOf = os.Getenv("VERIF_C14_FOROF_STACK") != "0" // goja repaired (commit 941aac2): asserted by default
 
 type chFrame struct {
 	kind, sel int
 	// cjHostIter only, decided by the fault schedule: what the Go-implemented return() / next() of the iterator do
 	retAct, nextAct int
+	// cnForOfStep only, decided by the fault schedule: what the SCRIPT return() method of the iterable does
+	sret int
+}
+
+// cnForOfStep variants (sel): bit 0: the native's convention, bit 1: who calls the next frame
+const (
+	fosReflect = 1 // func(it Value) (Value, error) with rt.Try around rt.ForOf (else: func(FunctionCall) Value, plain call)
+	fosInNext  = 2 // the iterable's script next() calls the next frame (else: the Go step callback does)
+	nFosSel    = 4
+)
+
+// what the script return() of a cnForOfStep iterable does
+const (
+	sretObject = iota // logs r<K>, returns {}
+	sretThrow         // logs r<K>, throws a value
+	sretAbsent        // there is no return() method
+)
+
+var chSretNames = [...]string{"returns {}", "throws", "absent"}
+
+// chSretOf derives it from the same schedule draw as the host iterators' return() action
+func chSretOf(retAct int) int {
+	switch {
+	case chRetThrows(retAct):
+		return sretThrow
+	case chRetForeign(retAct):
+		return sretAbsent
+	}
+	return sretObject
 }
 
 // cjHostIter variants (sel): how the script consumes the host iterator
@@ -319,6 +357,7 @@ type chModel struct {
 	iterClosedOnThrow, iterClosedOnReturn, retThrowIgnored, retThrowReplaced, retForeignOnThrow, retForeignOnReturn bool
 	iterNotClosedAbrupt, nextThrew                                                                                  bool
 	builtinClosedOnThrow, builtinNotClosedAbrupt                                                                    bool
+	forOfClosedOnThrow, forOfClosedOnStop, forOfPassedForeign, forOfNextThrew                                       bool
 }
 
 func (m *chModel) ev(seg int, f string, a ...interface{}) {
@@ -404,7 +443,7 @@ func chPredict(frames []chFrame, entry int, root chState, iv []chIterVals) *chMo
 		seg := m.segOf[k]
 		abrupt := s.kind != csNormal
 		catchable := s.kind == csThrow
-		if chIsNative(f.kind) && s.kind == csNormal {
+		if chIsNative(f.kind) && s.kind == csNormal && !(f.kind == cnForOfStep && f.sel&fosInNext != 0) {
 			m.ev(seg, "X%d(%s)", k, s.normal)
 		}
 		if abrupt {
@@ -551,6 +590,42 @@ func chPredict(frames []chFrame, entry int, root chState, iv []chIterVals) *chMo
 			default:
 				// a foreign panic or an uncatchable condition passes: return() must NOT be called (no event)
 				m.iterNotClosedAbrupt = true
+			}
+		case cnForOfStep:
+			// Runtime.ForOf: "a Go equivalent of for-of loop". The step callback stops after the first value, so on normal
+			// completion the iterator is closed (what return() throws then replaces the completion); a script exception
+			// leaving the step callback closes it too and goes on; an exception thrown by next() does not close it. An
+			// uncatchable condition (bare or %w-wrapped) or a foreign panic passes WITHOUT return() being called: no event.
+			inNext := f.sel&fosInNext != 0
+			closeIt := func() bool { // returns true if return() threw
+				if f.sret == sretAbsent {
+					return false
+				}
+				m.ev(seg, "r%d", k)
+				return f.sret == sretThrow
+			}
+			switch s.kind {
+			case csNormal:
+				if inNext {
+					m.ev(seg, "b%d", k)
+				}
+				m.forOfClosedOnStop = true
+				if closeIt() {
+					s = chState{kind: csThrow, p: iv[k].retPay, someTop: true}
+				} else if inNext {
+					m.ev(seg, "X%d(%s)", k, s.normal)
+				}
+			case csThrow:
+				if inNext {
+					m.forOfNextThrew = true // not closed
+					break
+				}
+				m.forOfClosedOnThrow = true
+				if closeIt() && !chForOfOriginalWins {
+					s = chState{kind: csThrow, p: iv[k].retPay, someTop: true}
+				}
+			default:
+				m.forOfPassedForeign = m.forOfPassedForeign || s.kind == csForeign
 			}
 		case cjIterBuiltin:
 			// iteratorRecord.iterate(): the built-in calls next(), then the callback (which calls the next frame).
